@@ -829,7 +829,23 @@ func runCase(d Desc) (vf.Case, error) {
 	ctx := context.Background()
 	var calls []callObs
 	stopEarly := d.Kind != "scanbad"
-	for ci, dm := range d.Ops {
+	ops := d.Ops
+	if strings.HasSuffix(d.Kind, "fold") {
+		// Which keys a truncated run of Fold delivers depends on Go's map order;
+		// to keep the case file a function of the seed, Fold is always read to
+		// its end: the described demands are followed by demands of 7.
+		ops = append([]int(nil), d.Ops...)
+		extra := 4
+		for _, in := range d.Ins {
+			for _, rs := range in {
+				extra += len(rs.Rows)
+			}
+		}
+		for i := 0; i < extra; i++ {
+			ops = append(ops, 7)
+		}
+	}
+	for ci, dm := range ops {
 		if dm < 1 {
 			continue // the property is about destinations of length >= 1
 		}
